@@ -709,21 +709,52 @@ def execute_tree(desc, ctx):
 # visibility
 
 
+VIS_RUNS = [1, 2, 254, 255, 256, 257, 510, 511]
+VIS_PATTERN = st.one_of(
+    # (a) alternating non-zero / zero bytes (every zero byte becomes the pair 00 01: the coding expands)
+    st.tuples(st.just('alt'), st.integers(1, 255), st.integers(0, 1), st.integers(1, 3)).map(list),
+    # (b) random bytes AND-ed together: about half the bytes are isolated zeros
+    st.tuples(st.just('and'), st.binary(min_size=8, max_size=40).map(bytes.hex),
+              st.binary(min_size=8, max_size=40).map(bytes.hex)).map(list),
+    # (c) one zero run of a boundary length at the start / middle / end, non-zero elsewhere
+    st.tuples(st.just('run'), st.sampled_from(VIS_RUNS), st.sampled_from(['start', 'middle', 'end']),
+              st.integers(1, 255)).map(list),
+    st.just(['ones']),                                                  # (d)
+    st.just(['zeros']),                                                 # (e)
+    st.tuples(st.just('raw'), st.binary(min_size=1, max_size=48).map(bytes.hex)).map(list),
+)
+
+
+def vis_row(pat, ln: int, k: int) -> bytearray:
+    """Row number k of length ln for a pattern descriptor (pure function)."""
+    kind = pat[0]
+    if kind == 'alt':
+        _, val, phase, period = pat
+        return bytearray((val if ((i + phase + k) % (period + 1)) else 0) for i in range(ln))
+    if kind == 'and':
+        a, b = bytes.fromhex(pat[1]), bytes.fromhex(pat[2])
+        return bytearray(a[(i + k) % len(a)] & b[(i + 3 * k) % len(b)] for i in range(ln))
+    if kind == 'run':
+        _, run, where, val = pat
+        run = min(run, ln)
+        start = {'start': 0, 'middle': (ln - run) // 2, 'end': ln - run}[where]
+        row = bytearray([val]) * ln
+        row[start:start + run] = bytes(run)
+        return row
+    if kind == 'ones':
+        return bytearray(b'\xff' * ln)
+    if kind == 'zeros':
+        return bytearray(ln)
+    raw = bytes.fromhex(pat[1])
+    return bytearray(raw[(i + k) % len(raw)] for i in range(ln))
+
+
 def strat_visibility(tier):
-    def rows(n):
-        ln = (n + 7) // 8
-        row = st.one_of(
-            st.binary(min_size=ln, max_size=ln),
-            st.just(bytes(ln)), st.just(b'\xff' * ln),
-            st.builds(lambda a, z: (a + bytes(z) + a + bytes(ln))[:ln], st.binary(max_size=3),
-                      st.sampled_from([1, 2, 254, 255, 256, 257, 509, 510, 511, 512])),
-            st.builds(lambda a: (bytes(ln) + a)[-ln:] if ln else b'', st.binary(min_size=1, max_size=2)),
-        ).map(bytes.hex)
-        few = min(n, 3)
-        return st.fixed_dictionaries({'n': st.just(n), 'pvs': st.lists(row, min_size=few, max_size=few),
-                                      'pas': st.lists(row, min_size=few, max_size=few)})
-    n = st.sampled_from([0, 1, 2, 7, 8, 9, 16, 17, 33, 2041, 2048, 2100, 4090])
-    return st.fixed_dictionaries({'layout': LAYOUT, 'lzma': LZ, 'vis': st.one_of(st.none(), n.flatmap(rows))})
+    n = st.sampled_from([0, 1, 2, 7, 8, 9, 16, 17, 24, 33, 64, 100, 128, 129, 200, 256, 256, 300, 2041, 2048, 2100, 4090])
+    # every row k uses pattern pvs[k % len] / pas[k % len] (different lists, so PVS and PAS rows differ)
+    vis = st.fixed_dictionaries({'n': n, 'pvs': st.lists(VIS_PATTERN, min_size=1, max_size=4),
+                                 'pas': st.lists(VIS_PATTERN, min_size=1, max_size=4)})
+    return st.fixed_dictionaries({'layout': LAYOUT, 'lzma': LZ, 'vis': st.one_of(st.none(), vis, vis, vis, vis)})
 
 
 def execute_visibility(desc, ctx):
@@ -736,10 +767,22 @@ def execute_visibility(desc, ctx):
         else:
             n = v['n']
             ln = (n + 7) // 8
-            pvs = [bytearray.fromhex(h) for h in v['pvs']] + [bytearray(ln) for _ in range(n - len(v['pvs']))]
-            pas = [bytearray.fromhex(h) for h in v['pas']] + [bytearray(ln) for _ in range(n - len(v['pas']))]
+            pvs = [vis_row(v['pvs'][k % len(v['pvs'])], ln, k) for k in range(n)]
+            pas = [vis_row(v['pas'][k % len(v['pas'])], ln, k) for k in range(n)]
             value = Visibility(pvs, pas)
             ctx.label('vis_long_rows' if ln > 255 else 'vis_short_rows')
+            if n >= 128:
+                ctx.label('vis_clusters>=128')
+            for pat in v['pvs'] + v['pas']:
+                ctx.label('vis_pat:' + pat[0])
+            # independent coder: does the run-length form of some row take more bytes than the row itself?
+            grow = max((len(G.rle_encode(bytes(r))) - len(r) for r in pvs[:8] + pas[:8]), default=0)
+            if grow > 0:
+                ctx.label('vis_encoded_longer')
+                if ln >= 4 and grow >= 2:
+                    ctx.label('vis_encoded_much_longer')
+            if any(0 < run <= ln and run in VIS_RUNS for pat in v['pvs'] + v['pas'] if pat[0] == 'run' for run in [pat[1]]):
+                ctx.label('vis_boundary_run')
             ctx.nontrivial(n >= 2)
         want = G.canon(value)
         c.bsp.visibility = value
@@ -1322,7 +1365,9 @@ SUBCHECKS = [
     S('tree', execute_tree, strat_tree, 600, 14000, must=('node_faces:slice', 'node_faces:tail', 'unlisted_node',
                                                           'unlisted_leaf', 'float_bounds', 'new_brush')),
     S('water', execute_water, strat_water, 300, 6000),
-    S('visibility', execute_visibility, strat_visibility, 200, 3000, must=('vis_none', 'vis_long_rows', 'vis_short_rows')),
+    S('visibility', execute_visibility, strat_visibility, 300, 5000, must=(
+        'vis_none', 'vis_long_rows', 'vis_short_rows', 'vis_clusters>=128', 'vis_encoded_longer', 'vis_encoded_much_longer',
+        'vis_boundary_run', 'vis_pat:alt', 'vis_pat:and', 'vis_pat:run', 'vis_pat:ones', 'vis_pat:zeros', 'vis_pat:raw')),
     S('bmodels', execute_bmodels, strat_bmodels, 400, 10000, must=('shared_model', 'phys_solids', 'model_faces:tail')),
     S('cubemaps', execute_cubemaps, strat_cubemaps, 200, 4000),
     S('overlays', execute_overlays, strat_overlays, 300, 6000, must=('faces64',)),
